@@ -30,7 +30,7 @@ RULE = ("generated recordings (2..385 channels with metadata, 1..3 channels as f
 ASSUMPTIONS = ["os-level events issued through Python are all seen by the audit hook; power-loss reordering of unsynced writes is not modelled",
                "'complete' = the file decompresses (with its .ch) to / equals the source bytes",
                "a failure is an exception raised while one chunk is being (de)compressed"]
-REQUIRED = {"compress_faults_injected": 20, "decompress_faults_injected": 20, "remove_events_judged": 4, "twin_selectors": 200,
+REQUIRED = {"compress_faults_injected": 20, "decompress_faults_injected": 20, "remove_events_judged": 4, "stale_bin_runs": 9, "twin_sync_selectors": 50, "twin_selectors": 200,
             "roundtrips": 4, "entry_paths": 8}
 CASE_TIMEOUT = 200.0
 
@@ -230,6 +230,14 @@ def run_case(case):
                     same = np.shape(a) == np.shape(c) and np.array_equal(np.asarray(a), np.asarray(c)) and np.asarray(a).dtype == np.asarray(c).dtype
                     res.check(same, key, lambda: f"{lab}: bin gives shape {np.shape(a)}, cbin gives {np.shape(c)}"
                               + ("" if np.shape(a) != np.shape(c) else " (values differ)"))
+                    if isinstance(nsel, slice) and srb.meta is not None and srb.nsync > 0:
+                        # the other reading surfaces of the reader: sync rows for the same sample selection
+                        a2, c2 = srb.read_sync(nsel), src.read_sync(nsel)
+                        res.check(a2.shape == c2.shape and np.array_equal(a2, c2), key + ":read_sync",
+                                  f"{label} read_sync({S.describe(nsel)}): bin gives shape {a2.shape}, cbin gives {c2.shape}", counter="twin_sync_selectors")
+                        a3, c3 = srb.read(nsel=nsel, csel=csel, sync=True), src.read(nsel=nsel, csel=csel, sync=True)
+                        res.check(all(np.shape(x) == np.shape(y) and np.array_equal(x, y) for x, y in zip(a3, c3)), key + ":read-with-sync",
+                                  f"{lab} read(sync=True): bin and cbin differ")
                 except Exception as e:
                     res.exception(key + ":exception", e, lab)
             # around every seam, explicitly
@@ -297,6 +305,70 @@ def run_case(case):
             res.check(Path(out) == b and b.read_bytes() == src_bytes, "inplace-decompress:bytes", f"{label}: in-place decompression is not byte-identical")
             res.check(not fc.exists() and not fc.with_suffix(".ch").exists(), "inplace-decompress:state", f"{label}: compressed source still present")
             sr2.close()
+            # ---- in-place decompression next to a stale / incomplete .bin carrying the final name (left by an interrupted run or an older copy)
+            sr3 = spikeglx.Reader(b, **kw)
+            sr3.compress_file(keep_original=False, chunk_duration=cd)
+            sr3.close()
+            nchunks = len(__import__("json").loads(fc.with_suffix(".ch").read_text())["chunk_bounds"]) - 1
+            cbin_bytes, ch_bytes = fc.read_bytes(), fc.with_suffix(".ch").read_bytes()
+            for variant in ("prefix", "same-size", "interrupted"):
+                log.events.clear()
+                if variant == "prefix":
+                    b.write_bytes(src_bytes[: int(rng.integers(0, len(src_bytes)))])
+                elif variant == "same-size":
+                    b.write_bytes(rng.integers(0, 256, len(src_bytes), dtype=np.uint8).tobytes())
+                else:
+                    b.unlink(missing_ok=True)
+                    kf = int(rng.integers(0, nchunks))
+                    orig_dc = mtscomp.Reader._decompress_chunk
+
+                    def dc(self, chunk_idx, _k=kf):
+                        if chunk_idx == _k:
+                            res.count("decompress_faults_injected")
+                            raise OSError(f"injected failure while decompressing chunk {_k}")
+                        return orig_dc(self, chunk_idx)
+                    mtscomp.Reader._decompress_chunk = dc
+                    raised = False
+                    try:
+                        srf = spikeglx.Reader(fc, **kw)
+                        try:
+                            srf.decompress_file(keep_original=False)
+                        except OSError:
+                            raised = True
+                        finally:
+                            srf.close()
+                    finally:
+                        mtscomp.Reader._decompress_chunk = orig_dc
+                    labf = f"{label}: decompress_file(keep_original=False) failing at chunk {kf}/{nchunks}"
+                    res.check(raised, "inplace-decompress-fault:swallowed", f"{labf}: the failure did not propagate")
+                    res.check(fc.exists() and fc.read_bytes() == cbin_bytes and fc.with_suffix(".ch").exists() and fc.with_suffix(".ch").read_bytes() == ch_bytes,
+                              "inplace-decompress-fault:source-touched", f"{labf}: the compressed source is missing or modified after the failure")
+                lab2 = f"{label}: decompress_file(keep_original=False) next to a {variant} .bin of {b.stat().st_size if b.exists() else 0}/{len(src_bytes)} bytes"
+                srs = spikeglx.Reader(fc, **kw)
+                try:
+                    out = srs.decompress_file(keep_original=False)
+                    done = True
+                except Exception:
+                    done = False     # refusing is fine - as long as the source survives
+                srs.close()
+                res.count("stale_bin_runs")
+                if done:
+                    res.check(b.exists() and b.read_bytes() == src_bytes, "inplace-decompress:stale-bin-taken-for-complete",
+                              f"{lab2}: returned normally but the .bin is not the recording ({b.stat().st_size if b.exists() else 0} bytes); source present: {fc.exists()}")
+                else:
+                    res.check(fc.exists() and fc.read_bytes() == cbin_bytes and fc.with_suffix(".ch").exists(), "inplace-decompress:refused-but-source-touched",
+                              f"{lab2}: refused, and the compressed source is missing or modified")
+                    srs = spikeglx.Reader(fc, **kw)
+                    try:
+                        srs.decompress_file(keep_original=False, overwrite=True)
+                        res.check(b.read_bytes() == src_bytes and not fc.exists(), "inplace-decompress:overwrite", f"{lab2}: overwrite=True did not produce the recording")
+                    except Exception as e:
+                        res.exception("inplace-decompress:overwrite:exception", e, lab2)
+                    srs.close()
+                # back to the compressed state for the next variant
+                if not fc.exists():
+                    fc.write_bytes(cbin_bytes)
+                    fc.with_suffix(".ch").write_bytes(ch_bytes)
         except Exception as e:
             res.exception("inplace:exception", e, label)
         finally:
